@@ -132,12 +132,14 @@ fn gradient(class: &str, k: usize, i: usize, rng_base: u64) -> f32 {
         // decay / coasting on the moment state, never "nothing"
         "vanishing" => if k % 2 == 1 { 0.0 } else { 0.3 - 0.15 * i as f32 },
         "tiny" => 1.0e-20 * (1.0 + i as f32),
+        // comparable with an epsilon of 1e-9 .. 1e-8: the value of epsilon decides the step
+        "small" => 1.0e-9 * (1.0 + i as f32) * if (i + k) % 3 == 0 { -1.0 } else { 1.0 },
         "large" => 1.0e10 * (1.0 + i as f32) * if i % 2 == 0 { 1.0 } else { -1.0 },
         _ => panic!("harness: gradient class"),
     }
 }
 
-const CLASSES: [&str; 7] = ["random", "constant", "sparse", "flipping", "vanishing", "tiny", "large"];
+const CLASSES: [&str; 8] = ["random", "constant", "sparse", "flipping", "vanishing", "tiny", "small", "large"];
 
 fn run_history(case: &Value, class: &str, steps: &[(usize, i32)], seed: u64, rep: &mut Report, id: &str) {
     let kind = str_of(case, "kind");
